@@ -508,7 +508,10 @@ pub fn tables_of(steps: &[Step]) -> Vec<String> {
 // by its directory.
 static FS_EVENTS: std::sync::Mutex<Vec<(String, PathBuf)>> = std::sync::Mutex::new(Vec::new());
 
+static FS_RECORDER_INSTALLED: std::sync::atomic::AtomicBool = std::sync::atomic::AtomicBool::new(false);
+
 pub fn install_fs_recorder() {
+    FS_RECORDER_INSTALLED.store(true, std::sync::atomic::Ordering::SeqCst);
     vharness::locustdb::verif::set_fs_callback(Some(Box::new(|label, path, _data| {
         if label == "store:renamed" || label == "delete:done" {
             FS_EVENTS.lock().unwrap().push((label.to_string(), path.to_path_buf()));
@@ -566,6 +569,8 @@ pub fn effects_tok(ev: &[(char, String)]) -> String {
 pub fn collect_step_events(root: &Path, wal_before: &[String]) -> Vec<(char, String)> {
     let t0 = Instant::now();
     let mut ev: Vec<(char, String)> = vec![];
+    // without the recorder (c08, c13) no removal event ever arrives: waiting for one cost 20 s per flush step
+    if !FS_RECORDER_INSTALLED.load(std::sync::atomic::Ordering::SeqCst) { return ev; }
     loop {
         ev.extend(take_events(root));
         let present: std::collections::HashSet<String> = wal_files(root).iter()
@@ -1310,3 +1315,129 @@ pub fn layout_jobs(args: &Args, rng: &mut Rng, null_loss: bool) -> Vec<Job> {
 }
 
 pub const NULL_LOSS_NOTE: &str = "note: open finding compaction-null-loss (C07) reproduces on this tree; histories that compact keep one column set per table and no NULL cells until it is repaired";
+
+// ---------------------------------------------------------------------------------------------
+// Columns that are NULL in every row of a batch (seeded change C13-all-null-first-batch-unregistered: a column whose
+// FIRST batch carries no value must still reach the catalogue, and its later values must survive flush + restart +
+// compaction).  Every representation of "no value in this batch" the wire format allows, before / after batches with
+// values, separated by every combination of flush / restart / compacting flush.
+
+/// Wire representations of a column without a single value in a batch of `n` rows.
+pub const NULL_REPS: &[&str] = &["empty", "sparsef0", "sparsei0", "dense0", "i64x0", "mixednull"];
+
+pub fn all_null_rep(rep: &str, n: usize) -> ColRep {
+    match rep {
+        "empty" => ColRep::Empty,
+        "sparsef0" => ColRep::Sparse(vec![]),
+        "sparsei0" => ColRep::SparseI64(vec![]),
+        "dense0" => ColRep::Dense(vec![]),      // dense vector shorter than the batch: the missing tail is NULL
+        "i64x0" => ColRep::I64(vec![]),
+        _ => ColRep::Mixed(vec![Cell::Null; n]),
+    }
+}
+
+/// `n` values of kind 0 (ints) / 1 (strings) / 2 (floats), starting at `base`.
+pub fn value_rep(kind: usize, base: i64, n: usize) -> ColRep {
+    match kind % 3 {
+        0 => ColRep::I64((0..n as i64).map(|i| base + i).collect()),
+        1 => ColRep::Str((0..n as i64).map(|i| format!("v{}", base + i)).collect()),
+        _ => ColRep::Dense((0..n as i64).map(|i| (base + i) as f64 + 0.5).collect()),
+    }
+}
+
+/// What separates the two batches of a directed NULL-column history.
+pub const NULL_SEPS: &[(&str, &[u8])] = &[("same", b""), ("F", b"F"), ("R", b"R"), ("FR", b"FR"), ("FRF", b"FRF")];
+
+fn sep_steps(code: &[u8]) -> Vec<Step> { code.iter().map(|c| if *c == b'F' { Step::Flush } else { Step::Restart }).collect() }
+
+/// Directed histories around a column `c` of table `t` (companion column `a` always has values):
+///  * `nullfirst`: the first batch that names `c` has no value for it; a later batch brings values; then flush, restart,
+///    a batch that does not mention `c`, a (compacting) flush, restart, and one more all-NULL batch;
+///  * `nulllate`:  the same, but `t` already exists (one flushed partition, restart: the name set comes from the catalogue);
+///  * `nulllast`:  values first, all-NULL batches afterwards;
+///  * `nullonly`:  the table's very first batch consists of the all-NULL column alone.
+/// quick: every (representation × separator) once, value kind and combine factor cycling; thorough: the full product.
+pub fn null_column_jobs(args: &Args, null_loss: bool, cname: &str) -> Vec<Job> {
+    let mut jobs = vec![];
+    let a = |base: i64, n: usize| ("a".to_string(), ColRep::I64((0..n as i64).map(|i| base + i).collect()));
+    let b = |cols: Vec<(String, ColRep)>, n: u64| Step::Ingest(vec![Batch { table: "t".into(), len: n, cols }]);
+    let cfs = [1u64, 0, 999, 4];
+    let mut idx = 0usize;
+    for (ri, rep) in NULL_REPS.iter().enumerate() {
+        for (si, (sname, scode)) in NULL_SEPS.iter().enumerate() {
+            let combos: Vec<(usize, u64, usize)> = if args.thorough() {
+                let mut v = vec![];
+                for kind in 0..3 { for cf in cfs { for io in [1usize, 4] { v.push((kind, cf, io)); } } }
+                v
+            } else { vec![((ri + si) % 3, cfs[(ri + 2 * si) % 3], if idx % 2 == 0 { 1 } else { 4 })] };
+            idx += 1;
+            for (kind, cf, io) in combos {
+                if null_loss && cf != 999 { continue; }
+                let cfg = Cfg { combine: cf, io, mem_lz4: (ri + si) % 2 == 0, ..Cfg::plain() };
+                let c = |rep: ColRep| (cname.to_string(), rep);
+                let rep2 = NULL_REPS[(ri + 1) % NULL_REPS.len()];
+                // first appearance without a value, values later
+                let mut steps = vec![b(vec![a(1, 2), c(all_null_rep(rep, 2))], 2)];
+                steps.extend(sep_steps(scode));
+                steps.extend(vec![b(vec![a(3, 1), c(value_rep(kind, 7, 1))], 1), Step::Flush, Step::Restart, b(vec![a(4, 1)], 1), Step::Flush, Step::Restart,
+                    b(vec![a(5, 1), c(all_null_rep(rep2, 1))], 1), Step::Flush, Step::Restart]);
+                jobs.push(Job { class: format!("nullfirst:{}:{}:cf{}", rep, sname, cf), cfg: cfg.clone(), steps });
+                // the table exists already; its name set is loaded from the catalogue after a restart
+                let mut steps = vec![b(vec![a(1, 1)], 1), Step::Flush, Step::Restart, b(vec![a(2, 2), c(all_null_rep(rep, 2))], 2)];
+                steps.extend(sep_steps(scode));
+                steps.extend(vec![b(vec![c(value_rep(kind, 7, 2)), a(4, 2)], 2), Step::Flush, Step::Restart, b(vec![a(6, 1)], 1), Step::Flush, Step::Restart]);
+                jobs.push(Job { class: format!("nulllate:{}:{}:cf{}", rep, sname, cf), cfg: cfg.clone(), steps });
+                // values first, no value afterwards
+                let mut steps = vec![b(vec![a(1, 2), c(value_rep(kind, 7, 2))], 2)];
+                steps.extend(sep_steps(scode));
+                steps.extend(vec![b(vec![a(3, 1), c(all_null_rep(rep, 1))], 1), Step::Flush, Step::Restart, b(vec![c(all_null_rep(rep2, 2)), a(4, 2)], 2), Step::Flush, Step::Restart]);
+                jobs.push(Job { class: format!("nulllast:{}:{}:cf{}", rep, sname, cf), cfg, steps });
+            }
+        }
+        // the table's very first batch is the all-NULL column alone
+        for cf in if args.thorough() { vec![1u64, 0, 999] } else { vec![cfs[ri % 3]] } {
+            if null_loss && cf != 999 { continue; }
+            let c = |rep: ColRep| (cname.to_string(), rep);
+            jobs.push(Job { class: format!("nullonly:{}:cf{}", rep, cf), cfg: Cfg { combine: cf, ..Cfg::plain() }, steps: vec![
+                b(vec![c(all_null_rep(rep, 2))], 2), Step::Flush, b(vec![c(value_rep(ri, 7, 1))], 1), Step::Restart, b(vec![a(1, 1)], 1), Step::Flush, Step::Restart] });
+        }
+    }
+    jobs
+}
+
+/// A random request in which every column is, with probability 1/3, without a single value (random representation).
+pub fn gen_request_nullish(rng: &mut Rng, tables: &[String], cols: &[String], max_rows: u64) -> Vec<Batch> {
+    let mut out = gen_request(rng, tables, cols, true, max_rows);
+    for bt in out.iter_mut() {
+        let n = bt.len as usize;
+        // at least one column keeps its cells unless the dice say otherwise for all of them (an all-NULL batch is legal too)
+        for (_, rep) in bt.cols.iter_mut() {
+            if rng.chance(1, 3) { *rep = all_null_rep(*rng.pick(NULL_REPS), n); }
+        }
+    }
+    out
+}
+
+/// Random histories over {ingest (nullish requests), flush, restart} with random configurations.
+pub fn null_random_jobs(args: &Args, rng: &mut Rng, tables: &[String], cols: &[String], null_loss: bool) -> Vec<Job> {
+    let mut jobs = vec![];
+    let n = if args.thorough() { 400 } else { 30 };
+    // a small column pool makes "no value first, values later" likely inside one history
+    let mut few: Vec<String> = vec![];
+    for _ in 0..4 { let c = rng.pick(cols).clone(); if !few.contains(&c) { few.push(c); } }
+    for i in 0..n {
+        let mut cfg = Cfg::random(rng, false);
+        if null_loss { cfg.combine = 999; }
+        let ts = &tables[..1 + (i % tables.len().min(2))];
+        let len = 4 + rng.below(5) as usize;
+        let mut steps = vec![];
+        for k in 0..len {
+            let r = rng.below(10);
+            if k == 0 || r < 5 { steps.push(Step::Ingest(gen_request_nullish(rng, ts, &few, 3))); }
+            else if r < 8 { steps.push(Step::Flush); } else { steps.push(Step::Restart); }
+        }
+        steps.push(Step::Flush); steps.push(Step::Restart);
+        jobs.push(Job { class: format!("randnull:{}", cfg.class()), cfg, steps });
+    }
+    jobs
+}
